@@ -1,5 +1,205 @@
 package purekeys
 
-import "verif/harness/hx"
+import (
+	portkeeper "github.com/cosmos/ibc-go/v11/modules/core/05-port/keeper"
+	porttypes "github.com/cosmos/ibc-go/v11/modules/core/05-port/types"
+	"github.com/cosmos/ibc-go/v11/modules/core/api"
 
-func famC48(r *hx.Rng, o *hx.Out) {}
+	"verif/harness/hx"
+)
+
+type mod2 struct {
+	api.IBCModule
+	id int
+}
+
+type mod1 struct {
+	porttypes.IBCModule
+	id int
+}
+
+// genNames draws a pool of route names that share prefixes / substrings, plus a few non-alphanumeric ones.
+func genNames(r *hx.Rng) []string {
+	alnum := "ab1"
+	base := []string{r.Str(alnum, 1, 3), r.Str(alnum, 1, 3), r.Pick([]string{"transfer", "wasm", "ica", "icahost"})}
+	var pool []string
+	for _, b := range base {
+		pool = append(pool, b, b+r.Str(alnum, 1, 2), b+r.Str(alnum, 1, 1), b[:1+r.Intn(len(b))], r.Str(alnum, 1, 2)+b)
+	}
+	pool = append(pool, r.Pick([]string{"", "a-b", "a_b", "a.b", "a b", "icacontroller-x"}))
+	return pool
+}
+
+func genPorts(r *hx.Rng, pool []string) []string {
+	var ports []string
+	for i := 0; i < 8; i++ {
+		p := pool[r.Intn(len(pool))]
+		switch r.Intn(4) {
+		case 0:
+			p += r.Str("ab1", 1, 2)
+		case 1:
+			p = r.Str("ab1", 1, 1) + p
+		case 2:
+			if len(p) > 1 {
+				p = p[:len(p)-1]
+			}
+		}
+		ports = append(ports, p)
+	}
+	return ports
+}
+
+type op2 struct {
+	prefix bool
+	name   string
+	id     int
+}
+
+func runV2(ops []op2, ports []string) ([]bool, []any) {
+	rtr := api.NewRouter()
+	var acc []bool
+	for _, o := range ops {
+		m := &mod2{id: o.id}
+		p, _ := hx.Catch(func() {
+			if o.prefix {
+				rtr.AddPrefixRoute(o.name, m)
+			} else {
+				rtr.AddRoute(o.name, m)
+			}
+		})
+		acc = append(acc, !p)
+	}
+	var res []any
+	for _, port := range ports {
+		has := rtr.HasRoute(port)
+		var got any
+		p, _ := hx.Catch(func() {
+			got = rtr.Route(port).(*mod2).id
+		})
+		if p {
+			got = nil
+		}
+		res = append(res, []any{has, got})
+	}
+	return acc, res
+}
+
+func opsRec(ops []op2) []any {
+	var out []any
+	for _, o := range ops {
+		out = append(out, []any{o.prefix, hx.HS(o.name), o.id})
+	}
+	return out
+}
+
+func famC48(r *hx.Rng, o *hx.Out) {
+	n := hx.N(120, 3000)
+	for i := 0; i < n; i++ {
+		pool := genNames(r)
+		nops := 1 + r.Intn(7)
+		var ops []op2
+		mode := r.Intn(3)
+		tag := []string{"mixed", "mostly-compatible", "conflicting"}[mode]
+		for j := 0; j < nops; j++ {
+			name := pool[r.Intn(len(pool))]
+			if mode == 1 {
+				// distinct first letters: mostly accepted
+				name = string(rune('c'+j)) + r.Str("ab1", 0, 2)
+			}
+			ops = append(ops, op2{prefix: r.Chance(1, 2), name: name, id: j + 1})
+		}
+		// the same registrations in another order
+		perm := append([]op2{}, ops...)
+		for j := len(perm) - 1; j > 0; j-- {
+			k := r.Intn(j + 1)
+			perm[j], perm[k] = perm[k], perm[j]
+		}
+		ports := genPorts(r, pool)
+		if mode == 1 {
+			for _, op := range ops {
+				ports = append(ports, op.name, op.name+"x")
+			}
+		}
+		a1, r1 := runV2(ops, ports)
+		a2, r2 := runV2(perm, ports)
+		var hp []string
+		for _, p := range ports {
+			hp = append(hp, hx.HS(p))
+		}
+		o.Emit("router2", []any{opsRec(ops), opsRec(perm), hp}, []any{a1, r1, a2, r2}, tag)
+	}
+
+	// v1 port router + Keeper.Route
+	for i := 0; i < n; i++ {
+		pool := genNames(r)
+		nops := 1 + r.Intn(6)
+		type op1 struct {
+			seal bool
+			name string
+			id   int
+		}
+		var ops []op1
+		sealAt := -1
+		if r.Chance(1, 5) {
+			sealAt = r.Intn(nops)
+		}
+		for j := 0; j < nops; j++ {
+			ops = append(ops, op1{j == sealAt, pool[r.Intn(len(pool))], j + 1})
+		}
+		perm := append([]op1{}, ops...)
+		for j := len(perm) - 1; j > 0; j-- {
+			k := r.Intn(j + 1)
+			perm[j], perm[k] = perm[k], perm[j]
+		}
+		ports := genPorts(r, pool)
+		run := func(ops []op1) ([]bool, []any, []string) {
+			rtr := porttypes.NewRouter()
+			var acc []bool
+			for _, op := range ops {
+				m := &mod1{id: op.id}
+				if op.seal {
+					rtr.Seal()
+				}
+				p, _ := hx.Catch(func() { rtr.AddRoute(op.name, m) })
+				acc = append(acc, !p)
+			}
+			k := portkeeper.NewKeeper()
+			k.Router = rtr
+			var res []any
+			for _, port := range ports {
+				m, ok := k.Route(port)
+				if ok {
+					res = append(res, m.(*mod1).id)
+				} else {
+					res = append(res, nil)
+				}
+			}
+			var keys []string
+			for _, kk := range rtr.Keys() {
+				keys = append(keys, hx.HS(kk))
+			}
+			if keys == nil {
+				keys = []string{}
+			}
+			return acc, res, keys
+		}
+		rec := func(ops []op1) []any {
+			var out []any
+			for _, op := range ops {
+				out = append(out, []any{op.seal, hx.HS(op.name), op.id})
+			}
+			return out
+		}
+		a1, r1, k1 := run(ops)
+		a2, r2, k2 := run(perm)
+		var hp []string
+		for _, p := range ports {
+			hp = append(hp, hx.HS(p))
+		}
+		tag := "unsealed"
+		if sealAt >= 0 {
+			tag = "sealed-midway"
+		}
+		o.Emit("router1", []any{rec(ops), rec(perm), hp}, []any{a1, r1, k1, a2, r2, k2}, tag)
+	}
+}
